@@ -27,7 +27,7 @@ EqOK(e) == /\ IsSlot(e.p) /\ IsSlot(e.q)
 FactsOK(e) == /\ IsSlot(e.p)
               /\ LET f == Facts(heap, SlotVal(heap, root, e.p)) IN
                  /\ f.ty = e.f.ty /\ f.isn = e.f.isn /\ f.len = e.f.len /\ f.i = e.f.i /\ f.d2 = e.f.d2
-                 /\ f.b = e.f.b /\ f.s = e.f.s
+                 /\ f.b = e.f.b /\ f.s = e.f.s /\ f.cont = e.f.cont
 
 TStep ==
   /\ l <= Len(T)
